@@ -91,7 +91,12 @@ def range_filter_unconditional(ctx, fi, rule='RANGE/filter-whatever-the-amount')
     why = 'cannot classify: no comparison with min_allowed_pitch / max_allowed_pitch found in transpose_note_sequence'
     ctx.ob(rule, fi, fn, False, why, construct=cons, unknown=why)
     return
-  guarded = [(c, [(t, p) for t, p in pitfalls.guards_at(fn, c) if any(isinstance(n, ast.Name) and n.id == 'amount' for n in ast.walk(U.expand_locals(fn, t, at=c)))]) for c in cmps]
+  def on_amount_only(t, at):
+    # a condition on the amount itself (`amount`, `amount != 0`, ...): it mentions the amount and nothing of a note or of the range
+    tx = U.expand_locals(fn, t, at=at)
+    names = set(n.id for n in ast.walk(tx) if isinstance(n, ast.Name))
+    return 'amount' in names and not (names & {'min_allowed_pitch', 'max_allowed_pitch'}) and not any(isinstance(n, ast.Attribute) and n.attr in ('pitch', 'is_drum') for n in ast.walk(tx))
+  guarded = [(c, [(t, p) for t, p in pitfalls.guards_at(fn, c) if on_amount_only(t, c)]) for c in cmps]
   seen_pol = set((norm_text(t), p) for _c, gs in guarded for t, p in gs)
   for c, gs in guarded:
     # a filter written once per case of the amount (both arms of the same test hold a comparison) covers every amount
@@ -745,3 +750,4 @@ RENAME_FUNCS = [(F, 'transpose_note_sequence'), (CS, 'transpose_chord_symbol'), 
 EXPLANATION += (' Location-independent additions: DRUM/keep-condition and DRUM/total-time (three-valued evaluation with is_drum true), SEQ/melody-case (path-wise values + residue algebra for x % 12, x // 12), SEQ/chords-memo-key (a memo is keyed by the figure read), TAB/mod-12 definite form.')
 EXPLANATION += (' Round 6: ' + 'SPELL/alteration-magnitude (the alteration is not only compared in _pitch_class_to_string); SEQ/leadsheet-every-exit (must-pass-through over the normal exits of LeadSheet.transpose; a skipped delegate is located when its guard is taken for an amount of 12).')
 EXPLANATION += (' Round 7: ' + 'SEQ/squash-every-exit (must-pass-through); PITFALL/falsy-zero over chord_symbols_lib.')
+EXPLANATION += (' Rounds 9-10: ' + 'SEQ/leadsheet-defaults (sibling agreement with Melody); RANGE/filter-whatever-the-amount; SEQ/squash-every-exit answers cannot-classify for an exit under a further unclassified condition.')
